@@ -132,12 +132,15 @@ def run(ctx):
     records = []
     for i, (c, r) in enumerate(zip(cases, results)):
         records.append({"tid": i, "exc": r["exc"], "isnone": r["isnone"], "islist": r["islist"], "withlang": bool(c["withlang"]),
-                        "requested": c["languages"] or [], "hits": [{k: h[k] for k in ("tuple", "blank", "first", "seq", "lang")} for h in r["hits"]]})
+                        "requested": c["languages"] or [], "detect": r.get("detect", []), "hits": [{k: h[k] for k in ("tuple", "blank", "first", "seq", "lang")} for h in r["hits"]]})
     tuples, gen = core.validate_traces(ctx, "T_C17", "SPECIFICATION TSpec\nPOSTCONDITION Consumed\nCHECK_DEADLOCK FALSE\n", records)
     seen = {}
     for t in tuples["REJECT"]:
         _, tid, kind, verdict, exc = t[:5]
         c, r = cases[tid], results[tid]
+        if kind == "abs":
+            ctx.note_drift("Detect", {"text": c["text"], "languages": c["languages"], "candidates": r.get("detect"), "model_choice": exc})
+            continue
         key = (verdict, r["exc"], tuple(c["languages"] or []) if verdict == "raised" else ())
         seen[key] = seen.get(key, 0) + 1
         if seen[key] > 2:
@@ -147,6 +150,7 @@ def run(ctx):
                       observed={"exc": r["exc"], "msg": r.get("msg"), "hits": [[h.get("sub"), h.get("dt"), h["first"], h["seq"]] for h in r["hits"]]}, extra={"full_case": c})
     ctx.notes.append({"reject_classes": {"|".join(map(str, k)): v for k, v in seen.items()}})
     cov = {
+        "language_choices_validated": sum(len(r.get("detect", [])) for r in results),
         "evaluations": len(cases), "distinct_nontrivial": len({(c["text"], repr(c["languages"])) for c, r in zip(cases, results) if r["hits"]}),
         "rule": "case = (text <= 300 chars, languages or autodetection, RELATIVE_BASE, add_detected_language); non-trivial = distinct call returning hits",
         "exhaustive": False, "states": mc.distinct, "transitions": mc.generated, "traces_validated_against_impl": len(cases),
